@@ -10,6 +10,9 @@ pub mod c07;
 pub mod c09;
 pub mod c10;
 pub mod c11;
+pub mod c12;
+pub mod c13;
+pub mod c14;
 pub mod lines;
 
 use engine::{Ctx, Tier, Verdict, Worker};
@@ -26,6 +29,9 @@ pub fn run_property(id: &str, ctx: &Ctx) -> bool {
         "C09" => c09::run(ctx),
         "C10" => c10::run(ctx),
         "C11" => c11::run(ctx),
+        "C12" => c12::run(ctx),
+        "C13" => c13::run(ctx),
+        "C14" => c14::run(ctx),
         _ => return false,
     }
     true
@@ -41,6 +47,9 @@ pub fn replay_property(id: &str, w: &mut Worker, sub: &str, case: &serde_json::V
         "C09" => c09::replay(w, sub, case),
         "C10" => c10::replay(w, sub, case),
         "C11" => c11::replay(w, sub, case),
+        "C12" => c12::replay(w, sub, case),
+        "C13" => c13::replay(w, sub, case),
+        "C14" => c14::replay(w, sub, case),
         _ => None,
     }
 }
